@@ -323,7 +323,7 @@ inline bool g_sampled = false; ///< larger shapes: judge the first and last 64 e
 template <class T>
 void judge_view(ctx_t& cx, const std::string& key, const ivec& E, const T* base, T* wbase, const idx_t N,
                 const fref<T(idx_t)> read, const fref<const T*(idx_t)> addr, const fref<void(idx_t, T)> write,
-                const kv_t& what)
+                const kv_t& what, const bool nontrivial)
 {
     bool ok = true;
     for (size_t j = 0; j < E.size() && ok; ++j)
@@ -333,6 +333,7 @@ void judge_view(ctx_t& cx, const std::string& key, const ivec& E, const T* base,
             continue;
         }
         ++cx.ev;
+        cx.nt += nontrivial ? 1 : 0;
         if (addr)
         {
             const T* a = addr(static_cast<idx_t>(j));
@@ -366,6 +367,7 @@ void judge_view(ctx_t& cx, const std::string& key, const ivec& E, const T* base,
             for (size_t j = 0; j < E.size(); ++j)
             {
                 ++cx.ev;
+                cx.nt += nontrivial ? 1 : 0;
                 write(static_cast<idx_t>(j), mark<T>(E[j]));
                 in[static_cast<size_t>(E[j])] = 1;
             }
@@ -627,7 +629,7 @@ struct tensor_check_t
             {
                 auto vec = call<K>([&](auto... i) { return x.vector(i...); }, p);
                 ++cx.ev;
-                nt(1 + static_cast<uint64_t>(len) * (writable ? 2 : 1));
+                nt(1);
                 if (vec.size() != len || vec.data() != base + v.before || vec.innerStride() != 1)
                 {
                     cx.fail("vector:" + lv, {{"prefix", show(v.prefix)}, {"expected_size", jint(len)},
@@ -641,12 +643,12 @@ struct tensor_check_t
                     {
                         const auto write = [&](const idx_t j, const T m) { vec(j) = m; };
                         judge_view<T>(cx, "vector:" + lv, v.members, base, light ? nullptr : wbase, o.N, read,
-                                      none_t{}, write, what);
+                                      none_t{}, write, what, !offzero);
                     }
                     else
                     {
                         judge_view<T>(cx, "vector:" + lv, v.members, base, nullptr, o.N, read, none_t{}, none_t{},
-                                      what);
+                                      what, !offzero);
                     }
                     if (len > 0)
                     {
@@ -666,7 +668,7 @@ struct tensor_check_t
                 auto sub = call<K>([&](auto... i) { return x.tensor(i...); }, p);
                 static_assert(std::remove_reference_t<decltype(sub)>::rank() == Q);
                 ++cx.ev;
-                nt(1 + static_cast<uint64_t>(len) * (writable ? 2 : 1));
+                nt(1);
                 if (ivec(sub.dims().begin(), sub.dims().end()) != expdims || sub.size() != len ||
                     sub.data() != base + v.before || o.subcounts[K] != len)
                 {
@@ -684,11 +686,12 @@ struct tensor_check_t
                     {
                         const auto write = [&](const idx_t j, const T m) { at(j) = m; };
                         judge_view<T>(cx, "tensor:" + lv, v.members, base, light ? nullptr : wbase, o.N, read, addr,
-                                      write, what);
+                                      write, what, !offzero);
                     }
                     else
                     {
-                        judge_view<T>(cx, "tensor:" + lv, v.members, base, nullptr, o.N, read, addr, none_t{}, what);
+                        judge_view<T>(cx, "tensor:" + lv, v.members, base, nullptr, o.N, read, addr, none_t{}, what,
+                                      !offzero);
                     }
                 }
             }
@@ -698,7 +701,7 @@ struct tensor_check_t
             {
                 auto mat = call<K>([&](auto... i) { return x.matrix(i...); }, p);
                 ++cx.ev;
-                nt(1 + static_cast<uint64_t>(len) * (writable ? 2 : 1));
+                nt(1);
                 if (mat.rows() != expdims[0] || mat.cols() != expdims[1] || mat.data() != base + v.before ||
                     !decltype(mat)::IsRowMajor || mat.innerStride() != 1 || mat.outerStride() != expdims[1])
                 {
@@ -715,12 +718,12 @@ struct tensor_check_t
                         const auto write = [&](const idx_t j, const T m)
                         { mat(subs[static_cast<size_t>(j * 2)], subs[static_cast<size_t>(j * 2 + 1)]) = m; };
                         judge_view<T>(cx, "matrix:" + lv, v.members, base, light ? nullptr : wbase, o.N, read,
-                                      none_t{}, write, what);
+                                      none_t{}, write, what, !offzero);
                     }
                     else
                     {
                         judge_view<T>(cx, "matrix:" + lv, v.members, base, nullptr, o.N, read, none_t{}, none_t{},
-                                      what);
+                                      what, !offzero);
                     }
                 }
             }
@@ -771,7 +774,7 @@ struct tensor_check_t
                 auto s2 = x.slice(make_range(b, e));
                 static_assert(std::remove_reference_t<decltype(s)>::rank() == R);
                 cx.ev += 2;
-                cx.nt += proper ? 2 + E.size() * (writable ? 2 : 1) : 0;
+                cx.nt += proper ? 2 : 0;
                 if (ivec(s.dims().begin(), s.dims().end()) != expdims || s.data() != base + before ||
                     s.size() != static_cast<idx_t>(E.size()) || !(s2.dims() == s.dims()) || s2.data() != s.data())
                 {
@@ -794,11 +797,12 @@ struct tensor_check_t
                 if constexpr (writable)
                 {
                     const auto write = [&](const idx_t j, const T m) { at(j) = m; };
-                    judge_view<T>(cx, "slice:" + rk(), E, base, light ? nullptr : wbase, o.N, read, addr, write, what);
+                    judge_view<T>(cx, "slice:" + rk(), E, base, light ? nullptr : wbase, o.N, read, addr, write, what,
+                                  proper);
                 }
                 else
                 {
-                    judge_view<T>(cx, "slice:" + rk(), E, base, nullptr, o.N, read, addr, none_t{}, what);
+                    judge_view<T>(cx, "slice:" + rk(), E, base, nullptr, o.N, read, addr, none_t{}, what, proper);
                 }
             }
         }
@@ -812,7 +816,7 @@ struct tensor_check_t
         static_assert(std::remove_reference_t<decltype(rs)>::rank() == K);
         ++cx.ev;
         const bool nontrivial = o.N > 1 && (K > 1 || inferred);
-        cx.nt += nontrivial ? 1 + static_cast<uint64_t>(o.N) : 0;
+        cx.nt += nontrivial ? 1 : 0;
         cx.r.outcome(inferred ? (o.N == 0 ? "reshape:inferred-zero" : "reshape:inferred") : "reshape:explicit");
         const auto key = std::string(inferred ? "reshape-infer:" : "reshape:") + rk() + ":to" + std::to_string(K);
         if (ivec(rs.dims().begin(), rs.dims().end()) != f.expected || rs.data() != base || rs.size() != o.N)
@@ -836,11 +840,12 @@ struct tensor_check_t
         if constexpr (writable)
         {
             const auto write = [&](const idx_t j, const T m) { at(j) = m; };
-            judge_view<T>(cx, key, identity, base, (light || inferred) ? nullptr : wbase, o.N, read, addr, write, what);
+            judge_view<T>(cx, key, identity, base, (light || inferred) ? nullptr : wbase, o.N, read, addr, write, what,
+                          nontrivial);
         }
         else
         {
-            judge_view<T>(cx, key, identity, base, nullptr, o.N, read, addr, none_t{}, what);
+            judge_view<T>(cx, key, identity, base, nullptr, o.N, read, addr, none_t{}, what, nontrivial);
         }
     }
 
@@ -1249,12 +1254,12 @@ void run_shape(ctx_t& cx, const ivec& dims, const bool light)
     }
 }
 
-inline std::vector<ivec> small_shapes()
+inline std::vector<ivec> small_shapes(const idx_t maxdim5)
 {
     std::vector<ivec> out;
     for (size_t rank = 1; rank <= 5; ++rank)
     {
-        const ivec radix(rank, rank == 5 ? 4 : 5);
+        const ivec radix(rank, rank == 5 ? maxdim5 + 1 : 5);
         idx_t      count = 0;
         const auto all   = odometer(radix.data(), rank, count);
         for (idx_t c = 0; c < count; ++c)
